@@ -82,6 +82,10 @@ class HarnessError(Exception):
     pass
 
 
+class KnownStop(Exception):
+    """the run hit a listed known finding at a point where it cannot continue"""
+
+
 class Ctx:
     """what a world's executor talks to during one run"""
 
@@ -98,6 +102,7 @@ class Ctx:
         self.nontrivial = False
         self.extra: dict = {}
         self.foreign = None
+        self.known_hits: dict[str, int] = {}
         self.events: list | None = None  # filled only when tracing for a replay / debug
 
     # -- event log -------------------------------------------------------------------------
@@ -122,11 +127,29 @@ class Ctx:
                 # and go on, so that this property's exploration is not cut short
                 if self.foreign is None:
                     self.foreign = {"property": prop, "invariant": invariant, "attrs": attrs, "detail": str(detail)[:500]}
-                return
+                return False
+            sig = {"world": self.world, "invariant": invariant}
+            sig.update(attrs)
+            f = match_finding(KNOWN, prop, sig)
+            if f is not None:
+                # a listed known finding: count it and keep exploring (a different violation still ends the run)
+                self.known_hits[f["id"]] = self.known_hits.get(f["id"], 0) + 1
+                self.log("known-finding", f["id"])
+                return False
             raise Violation(prop, invariant, detail, **attrs)
+        return True
 
     def fail(self, prop, invariant, detail="", **attrs):
+        """a violation after which the run cannot go on"""
         self.n_checks += 1
+        if prop == self.prop:
+            sig = {"world": self.world, "invariant": invariant}
+            sig.update(attrs)
+            f = match_finding(KNOWN, prop, sig)
+            if f is not None:
+                self.known_hits[f["id"]] = self.known_hits.get(f["id"], 0) + 1
+                self.log("known-finding", f["id"])
+                raise KnownStop(f["id"])
         raise Violation(prop, invariant, detail, **attrs)
 
     # -- reach counters --------------------------------------------------------------------
@@ -160,6 +183,8 @@ def execute(world_mod, program, prop, trace=False):
     try:
         world_mod.execute(program, ctx)
         foreign = ctx.foreign
+    except KnownStop:
+        foreign = ctx.foreign
     except Violation as v:
         d = {"property": v.prop, "invariant": v.invariant, "attrs": v.attrs, "detail": str(v.detail)[:2000]}
         ctx.log("violation", d["property"], d["invariant"], d["attrs"])
@@ -179,6 +204,7 @@ def execute(world_mod, program, prop, trace=False):
         "key": hashlib.sha1(cjson(ctx._key).encode()).hexdigest()[:12],
         "nontrivial": bool(ctx.nontrivial),
         "extra": ctx.extra,
+        "known_hits": ctx.known_hits,
     }
     if trace:
         out["events"] = ctx.events
@@ -290,7 +316,7 @@ def _chunk_worker(args):
     agg = {
         "runs": 0, "ops": 0, "checks": 0, "sim_time": 0.0, "faults": {}, "probes": {},
         "keys": set(), "nontrivial": 0, "violations": [], "foreign": [], "errors": [],
-        "samples": [], "digests": {}, "extra": {}, "skipped": 0,
+        "samples": [], "digests": {}, "extra": {}, "skipped": 0, "known": {},
     }
     for i in indices:
         if deadline and time.time() > deadline:
@@ -306,6 +332,8 @@ def _chunk_worker(args):
         agg["sim_time"] += out["sim_time"]
         _merge_counts(agg["faults"], out["faults"])
         _merge_counts(agg["probes"], out["probes"])
+        for fid in out.get("known_hits") or {}:
+            agg["known"][fid] = agg["known"].get(fid, 0) + 1
         for k, v in (out.get("extra") or {}).items():
             if isinstance(v, dict):
                 _merge_counts(agg["extra"].setdefault(k, {}), v)
@@ -367,7 +395,7 @@ def run_batch(world_name, prop, tier, verif_seed, nruns, jobs, run_timeout, wall
     total = {
         "runs": 0, "ops": 0, "checks": 0, "sim_time": 0.0, "faults": {}, "probes": {},
         "keys": set(), "nontrivial": 0, "violations": [], "foreign": [], "errors": [],
-        "samples": [], "digests": {}, "extra": {}, "skipped": 0,
+        "samples": [], "digests": {}, "extra": {}, "skipped": 0, "known": {},
     }
     ctx = mp.get_context("fork")
     with ProcessPoolExecutor(max_workers=jobs, mp_context=ctx) as pool:
@@ -384,6 +412,7 @@ def run_batch(world_name, prop, tier, verif_seed, nruns, jobs, run_timeout, wall
             total["sim_time"] += agg["sim_time"]
             _merge_counts(total["faults"], agg["faults"])
             _merge_counts(total["probes"], agg["probes"])
+            _merge_counts(total["known"], agg["known"])
             for k, v in agg["extra"].items():
                 if isinstance(v, dict):
                     _merge_counts(total["extra"].setdefault(k, {}), v)
@@ -498,6 +527,9 @@ def load_findings(path):
             return json.load(fh)
     except FileNotFoundError:
         return []
+
+
+KNOWN = load_findings(os.path.join(os.path.dirname(os.path.dirname(os.path.abspath(__file__))), "known_findings.json"))
 
 
 def match_finding(findings, prop, sig):
